@@ -109,22 +109,34 @@ func genLoad(r *rand.Rand, tier string) *sx.Node {
 			readers = []string{all[:k], all[k:]}
 		}
 	}
-	seed := randomSeed(r)
+	seed := []byte(randomSeed(r))
 	switch r.Intn(12) {
 	case 0:
-		seed = ""
+		seed = nil
 	case 1:
-		seed = []string{"A", "é", "-1", " ", "a b", "seed!", "ß"}[r.Intn(7)]
+		seed = []byte([]string{"A", "é", "-1", " ", "a b", "seed!", "ß"}[r.Intn(7)])
+	case 2, 3:
+		// any byte, alone or after / before / between valid seed characters - on an unmutated script,
+		// because the seed is only looked at once the script has been accepted
+		readers = []string{"title: S\n---\nline {dice(6)}\n===\n"}
+		b := byte(r.Intn(256))
+		switch r.Intn(8) {
+		case 0:
+			b = 0x7f
+		case 1:
+			b = []byte{0, '/', ':', '`', '{', '@', '[', 0x80, 0xff}[r.Intn(9)]
+		}
+		seed = [][]byte{{b}, {'a', '1', b}, {b, 'z'}, {'0', b, '9'}, {b, b}}[r.Intn(5)]
 	}
 	rs := []*sx.Node{}
 	for _, t := range readers {
 		rs = append(rs, sx.Bytes([]byte(t)))
 	}
-	return sx.Tag("load", sx.Str(seed), sx.List(rs...))
+	return sx.Tag("load", sx.Bytes(seed), sx.List(rs...))
 }
 
 func runLoad(c *sx.Node) *sx.Node {
-	seed := c.L[1].Text()
+	seed := markupInput(c.L[1])
 	texts := []string{}
 	for _, n := range c.L[2].L {
 		texts = append(texts, markupInput(n))
